@@ -129,36 +129,7 @@ theorem cleanup_accepts (p : List Nat) (hp : NulFree p) (h1 : p ≠ []) (h2 : p.
 /-- The C rewrites the string in place: the result is never longer than the input
 (so the terminator is written inside the original block). -/
 theorem cleanup_in_place (f : Flags) (p q : List Nat) (hp : NulFree p) (h : cleanup f p = .ok q) :
-    q.length ≤ p.length := by
-  rw [cleanup_eq_spec _ _ hp] at h
-  unfold cleanSpec at h
-  dsimp only at h
-  have hlen := emit_keep_len (splitSlash p) false
-  rw [emit_false, join_split] at hlen
-  simp only [Bool.false_eq_true, if_false, Nat.zero_add] at hlen
-  split at h
-  · simp at h
-  · rename_i hne
-    have hpos : 0 < p.length := List.length_pos_iff.mpr hne
-    split at h
-    · simp at h
-    · split at h
-      · simp at h
-      · split at h
-        · rename_i habs
-          simp only [Res.ok.injEq] at h; subst h
-          cases p with
-          | nil => simp at habs
-          | cons c r =>
-            simp only [List.head?_cons, Option.some.injEq] at habs; subst habs
-            rw [splitSlash_cons_slash, keep_cons, if_pos (Or.inl rfl)]
-            have := emit_keep_len (splitSlash r) false
-            rw [emit_false, join_split] at this
-            simp only [Bool.false_eq_true, if_false, Nat.zero_add] at this
-            simp only [List.length_cons]; omega
-        · split at h
-          · simp only [Res.ok.injEq] at h; subst h; simp only [List.length_cons, List.length_nil]; omega
-          · simp only [Res.ok.injEq] at h; subst h; exact hlen
+    q.length ≤ p.length := cleanup_len_le f p q hp h
 
 /-- All reads and writes of `cleanup_pathname_fsobj` stay inside the
 `strlen(path) + 1` bytes of the string. -/
@@ -245,7 +216,7 @@ theorem check_symlinks_sound (fl : XFlags) (hsec : fl.secureSymlinks = true) (p 
   let c : Ctx := ⟨pr.cwd, fun _ => True, 0, pr.fs.root, pr.fs.files⟩
   have hnl := (checkSymlinks_spec c fl hsec false q hg pr).2 h
   simp only [loopTarget, Bool.false_eq_true, if_false] at hnl
-  refine ⟨hnl, ?_, (run_env _ pr).1, (run_env _ pr).2⟩
+  refine ⟨hnl, ?_, (run_plain (plain_checkSymlinks fl false q) pr).1, run_umask _ pr⟩
   intro b cs r hpre hw
   have hnd : NoDots cs := fun x hx => (rel_good hg).noDots x (hpre.subset hx)
   cases hget : get ((checkSymlinks fl false q).run pr).2.fs.root pr.cwd with
@@ -263,8 +234,9 @@ example : NoLinkAt ((checkSymlinks {} false [97]).run demoProc).2.fs demoProc.cw
   (check_symlinks_sound {} rfl [97] [97] (by decide) (by rw [cleanup_eq_spec _ _ (by decide)]; decide) (by decide)
     demoProc demo_check).1
 
-/-- Entries are C strings. -/
-def EntryStrings (e : Entry) : Prop := NulFree e.path ∧ NulFree e.link
+/-- Entries are C strings; the confinement theorem covers pathnames shorter than PATH_MAX
+(beyond that `edit_deep_directories` moves the process: see `umask_cwd_restored`, which has no such bound). -/
+def EntryStrings (e : Entry) : Prop := NulFree e.path ∧ NulFree e.link ∧ e.path.length < pathMax
 
 /-- What "nothing outside the target was touched" means for an extraction that
 started in state `pr` and ended in `pr'`.  `S` is any set of inodes containing
@@ -299,7 +271,7 @@ theorem sem_of_start {S : Nat → Prop} {pr : Proc} (h : Start S pr) :
   · intro x hx; rw [h.nofd.2.2] at hx; simp at hx
 
 /-- **The property** (`extract_confined`): for every finite sequence of entries of the five kinds
-with arbitrary names and link targets (hard links with or without a body), every
+with arbitrary names (shorter than PATH_MAX) and link targets (hard links with or without a body), every
 initial content of the file system (inside and outside the target) and every option
 set with the three SECURE flags (UNLINK / NO_OVERWRITE / SAFE_WRITES / PERM / TIME on or
 off), a whole extraction — every header / data / finish_entry and the deferred fix-ups
@@ -311,8 +283,8 @@ theorem extract_confined (fl : XFlags) (es : List Entry) (S : Nat → Prop) (pr 
     Confined S pr ((extractArchive fl es).run pr).2 := by
   have h0 := sem_of_start hst
   have := extractArchive_spec ⟨pr.cwd, S, pr.fs.next, pr.fs.root, pr.fs.files⟩ fl hfl es
-    (fun e he => ⟨(hes e he).1, (hes e he).2⟩) pr h0
-  exact ⟨this.inv.tree, this.inv.files, this.inv.refs, (run_env _ pr).1, (run_env _ pr).2⟩
+    (fun e he => hes e he) pr h0
+  exact ⟨this.inv.tree, this.inv.files, this.inv.refs, this.inv.cwd, run_umask _ pr⟩
 
 /-- Non-vacuity: the hypotheses hold for a sequence that plants a symlink to the outside, writes and
 hard-links through it, queues a fix-up for "d/." and then replaces "d" by a symlink to "/". -/
@@ -324,7 +296,7 @@ example : Confined (fun _ => False) demoProc
         { kind := .dir, path := [100, 47, 46], mode := 448 },                  -- d/.
         { kind := .symlink, path := [100], link := [47] } ]).run demoProc).2 :=
   extract_confined {} _ _ demoProc ⟨rfl, rfl, rfl⟩
-    (by intro e he; simp at he; rcases he with rfl | rfl | rfl | rfl | rfl <;> exact ⟨by decide, by decide⟩)
+    (by intro e he; simp at he; rcases he with rfl | rfl | rfl | rfl | rfl <;> exact ⟨by decide, by decide, by decide⟩)
     ⟨demo_tdir, demo_inside _, demo_wf, ⟨rfl, rfl, rfl⟩⟩
 
 /-- Offending names are refused with ARCHIVE_FAILED, never ARCHIVE_FATAL, without a
@@ -348,14 +320,24 @@ example : (header { flags := {} } { kind := .file, path := [46, 46, 47, 120] }).
     = ((.failed, { flags := {}, cur := none }), demoProc) :=
   refused_not_fatal _ _ _ ⟨rfl, rfl, rfl⟩ (by decide) (Or.inr (Or.inr (by decide)))
 
-/-- The process working directory and umask are the same after every call of the
-writer API as before it. -/
-theorem umask_cwd_restored (w : Writer) (e : Entry) (d : List Nat) (pr : Proc) :
-    ((header w e).run pr).2.cwd = pr.cwd ∧ ((header w e).run pr).2.umask = pr.umask ∧
-    ((writeData w d).run pr).2.cwd = pr.cwd ∧ ((writeData w d).run pr).2.umask = pr.umask ∧
-    ((finishEntry w).run pr).2.cwd = pr.cwd ∧ ((finishEntry w).run pr).2.umask = pr.umask ∧
-    ((close w).run pr).2.cwd = pr.cwd ∧ ((close w).run pr).2.umask = pr.umask :=
-  ⟨(run_env _ pr).1, (run_env _ pr).2, (run_env _ pr).1, (run_env _ pr).2,
-   (run_env _ pr).1, (run_env _ pr).2, (run_env _ pr).1, (run_env _ pr).2⟩
+/-- The process working directory and umask are the same after every call of the writer
+API as before it — for entries with pathnames of ANY length, PATH_MAX and beyond included
+(`edit_deep_directories` `chdir()`s into intermediate directories and `fchdir()`s back before
+`archive_write_header` returns), for every file-system state and every option set.  `EnvOK X pr`:
+the process stands in `X` and holds no left-over `restore_pwd` descriptor. -/
+theorem umask_cwd_restored (X : List Name) (w : Writer) (e : Entry) (d : List Nat) (pr : Proc) (h : EnvOK X pr) :
+    (EnvOK X ((header w e).run pr).2 ∧ ((header w e).run pr).2.umask = pr.umask) ∧
+    (EnvOK X ((writeData w d).run pr).2 ∧ ((writeData w d).run pr).2.umask = pr.umask) ∧
+    (EnvOK X ((finishEntry w).run pr).2 ∧ ((finishEntry w).run pr).2.umask = pr.umask) ∧
+    (EnvOK X ((close w).run pr).2 ∧ ((close w).run pr).2.umask = pr.umask) :=
+  ⟨⟨header_env X w e pr h, run_umask _ pr⟩, ⟨envOK_plain (plain_writeData w d) pr h, run_umask _ pr⟩,
+   ⟨envOK_plain (plain_finishEntry w) pr h, run_umask _ pr⟩, ⟨envOK_plain (plain_close w) pr h, run_umask _ pr⟩⟩
+
+/-- … and after a whole extraction, whatever the entries. -/
+theorem extract_cwd_umask (fl : XFlags) (es : List Entry) (pr : Proc) (h : pr.rfd = none) :
+    ((extractArchive fl es).run pr).2.cwd = pr.cwd ∧ ((extractArchive fl es).run pr).2.umask = pr.umask :=
+  ⟨(extractArchive_env pr.cwd fl es pr ⟨rfl, h⟩).1, run_umask _ pr⟩
+
+example : EnvOK demoProc.cwd demoProc := ⟨rfl, rfl⟩
 
 end LA.C04
